@@ -38,6 +38,7 @@ var nastyStrings = []string{
 	"1.2.3.4", "1.2.3.4.in-addr.arpa", "::", "::1%eth0", "[::1]:53", "1.2.3.4:80", "1:2:3:4:5:6:7:1.2.3.4", "%", ":", "[", "]",
 	"example.org", "_srv._tcp.example.org", "xn--", "xn--a.b", "İn-addr.arpa", "\xff\xfe", "a\x00b", "\"", "\"\"", "null", "{}",
 	"http://u:p@h/p?q#f", "#", "//", "/%2f^", "1h0m0s", "-1ns", "9223372036854775807ns", "1.2.3.4/33", "::/129", "1.2.3.0/24",
+	"Θεός", "θ", "ϑx", "Ιι", "Тт", "ᲄ", "the Θεός of the ancient Greeks", "DISK", "ſs", "Kk",
 	" \t# c", "1.2.3.4 a b # c", "1.2.3.4\tA a", "::1 localhost", "a,b , ,c", "K", "ſ", "0.0.0.0.0.0.0.0.0.0.0.0.0.0.0.0.0.0.0.0.0.0.0.0.0.0.0.0.0.0.0.0.ip6.arpa",
 }
 
@@ -331,6 +332,7 @@ func evalC01(c string) (res Result) {
 	fv := reflect.ValueOf(e.fn)
 	ft := fv.Type()
 	args := make([]reflect.Value, 0, ft.NumIn())
+	lastStr := ""
 	for i := 0; i < ft.NumIn(); i++ {
 		pt := ft.In(i)
 		if ft.IsVariadic() && i == ft.NumIn()-1 {
@@ -347,6 +349,24 @@ func evalC01(c string) (res Result) {
 		v, ok := genValue(rng, pt, 0)
 		if !ok {
 			return Result{Impl: "ok", Direct: "ok", Class: "trivial-unsupported-arg"}
+		}
+		if pt.Kind() == reflect.String && lastStr != "" && rng.IntN(2) == 0 {
+			// a related second string: a case-variant fragment of the previous string argument
+			// (needle/haystack, domain/top pairs)
+			rs := []rune(lastStr)
+			a := rng.IntN(len(rs))
+			b := a + 1 + rng.IntN(len(rs)-a)
+			frag := string(rs[a:b])
+			switch rng.IntN(3) {
+			case 0:
+				frag = strings.ToUpper(frag)
+			case 1:
+				frag = strings.ToLower(frag)
+			}
+			v = reflect.ValueOf(frag).Convert(pt)
+		}
+		if pt.Kind() == reflect.String {
+			lastStr = v.String()
 		}
 		args = append(args, v)
 	}
@@ -399,12 +419,12 @@ func c01Consumes(kinds string) bool {
 }
 
 func genC01(rng *rand.Rand, tier string) (cases []string) {
-	per := 60
+	per := 300
 	if tier == "thorough" {
-		per = 4000
+		per = 6000
 	}
 	cases = append(cases, "C01.list")
-	for i := 0; i < per*5; i++ {
+	for i := 0; i < per; i++ {
 		switch rng.IntN(5) {
 		case 0, 1:
 			d := genName(rng)
